@@ -119,16 +119,7 @@ func c17R1(c *Check, validate, merge, urls *ssa.Function) {
 	}
 	for name, what := range sent {
 		g := P.SSA[pkgInt].Var(name)
-		found := false
-		var where token.Pos
-		for _, r := range returnsOf(validate) {
-			for d := range dataDeps(r.Results[0]) {
-				if isLoadOfGlobal(d, g) {
-					found = true
-					where = instrPos(r)
-				}
-			}
-		}
+		found, where := returnsMayCarry(validate, g, 2)
 		// the refusal must precede the merge: the merge call is not reachable from entry while avoiding…
 		c.Obl(found, "C17.R1", "refusal/"+name, P.Pos(where), "refusal present: "+what, "the refusal `"+what+"` ("+name+") is no longer returned by Validate")
 	}
@@ -137,7 +128,15 @@ func c17R1(c *Check, validate, merge, urls *ssa.Function) {
 	{
 		g := P.SSA[pkgInt].Var("ErrMultipleOIDCConfig")
 		okLatch := false
-		for _, r := range returnsOf(validate) {
+		for _, vf := range deepFuncs(validate, 2) {
+		if pkgPathOf(vf) != pkgInt {
+			continue
+		}
+		ff := FactsOf(vf)
+		for _, r := range returnsOf(vf) {
+			if len(r.Results) == 0 {
+				continue
+			}
 			isM := false
 			for d := range dataDeps(r.Results[0]) {
 				if isLoadOfGlobal(d, g) {
@@ -156,6 +155,7 @@ func c17R1(c *Check, validate, merge, urls *ssa.Function) {
 					}
 				}
 			}
+		}
 		}
 		c.Obl(okLatch, "C17.R1", "refusal/multiple-oidc-latch", P.Pos(validate.Pos()), "the one-OIDC-filter-per-chain refusal is guarded by a latch that is set when an OIDC filter or override is seen",
 			"the one-OIDC-filter-per-chain latch is never set (or the refusal is not guarded by it): a chain with two OIDC filters is accepted")
@@ -806,4 +806,38 @@ func c17R4(c *Check, validate *ssa.Function) {
 	c15R2(c, R, fns)
 	c15R4(c, fns)
 	c15R5(c, fns)
+}
+
+
+// returnsMayCarry: some return of fn (or of an own helper whose error fn propagates) depends on the
+// sentinel error g.
+func returnsMayCarry(fn *ssa.Function, g *ssa.Global, depth int) (bool, token.Pos) {
+	for _, r := range returnsOf(fn) {
+		if len(r.Results) == 0 {
+			continue
+		}
+		last := r.Results[len(r.Results)-1]
+		deps := dataDeps(last)
+		for d := range deps {
+			if isLoadOfGlobal(d, g) {
+				return true, instrPos(r)
+			}
+		}
+		if depth > 0 {
+			cands := []ssa.Value{last}
+			for d := range deps {
+				cands = append(cands, d)
+			}
+			for _, d := range cands {
+				if hc, _, isC := asCall(d); isC {
+					if h := hc.Common().StaticCallee(); h != nil && h.Blocks != nil && isOwnPath(pkgPathOf(h)) && !strings.HasPrefix(pkgPathOf(h), modPath+"/config/gen/go") && h != fn {
+						if ok, pos := returnsMayCarry(h, g, depth-1); ok {
+							return true, pos
+						}
+					}
+				}
+			}
+		}
+	}
+	return false, token.NoPos
 }
